@@ -4,6 +4,7 @@ import (
 	"fmt"
 	"go/token"
 	"go/types"
+	"sort"
 	"strings"
 
 	"verifchk/internal/an"
@@ -16,13 +17,14 @@ func init() {
 		"(R20a) candidates are tried in the order exact, any-run-type, any-role, any/any (abstract evaluation of each candidate over {orig,ANY} x {orig,any}); "+
 		"(R20b) a candidate is returned only after its own existence test succeeded, otherwise a non-nil error with no query; the path test returns nil error only when the backend says the path exists; "+
 		"(R20c) each fallback constructor changes exactly its one field; (R20d) the three query regular expressions are anchored at both ends with no top-level alternation and the parsers reject non-matching input with the bad-key error. "+
-		"Does not decide parse/print round trips, backend Exists semantics or templating of payloads.", runC20)
+		"Does not decide parse/print round trips, backend Exists semantics or the template engine itself; of 'templated with exactly the variables supplied' only (R20e): the variables of one request never flow into a function that updates state kept by the Service (the per-directory template-set cache).", runC20)
 }
 
 func runC20(c *an.Ctx) {
 	summ := r20c(c)
 	r20ab(c, summ)
 	r20d(c)
+	r20e(c)
 }
 
 const cfgPkg = "configuration/componentcfg"
@@ -53,14 +55,79 @@ func r20c(c *an.Ctx) map[string]string {
 		if lit == nil {
 			bad = append(bad, "no Query literal")
 		} else {
+			// the stores into the new Query in execution order: a whole-struct copy of the receiver (`q := *p`) sets
+			// every field to the receiver's, a field store overrides one field; only stores on every path to the
+			// return count
 			stored := map[string]ssa.Value{}
+			fromRecv := map[string]bool{}
+			var ret *ssa.Return
+			for _, r := range an.Returns(fn) {
+				ret = r
+			}
+			type wr struct {
+				in    ssa.Instruction
+				field int // -1: whole struct
+				val   ssa.Value
+			}
+			var wrs []wr
+			addStore := func(s *ssa.Store, field int) {
+				if ret == nil || len(an.Returns(fn)) != 1 || !(s.Block() == ret.Block() || s.Block().Dominates(ret.Block())) {
+					bad = append(bad, "a store into the new Query at "+c.PosStr(s.Pos())+" is not on every path to the return")
+					return
+				}
+				wrs = append(wrs, wr{s, field, s.Val})
+			}
 			for _, r := range *lit.Referrers() {
-				if fa, ok := r.(*ssa.FieldAddr); ok && fa.Referrers() != nil {
-					for _, rr := range *fa.Referrers() {
-						if s, ok := rr.(*ssa.Store); ok {
-							stored[st.Field(fa.Field).Name()] = s.Val
+				switch t := r.(type) {
+				case *ssa.FieldAddr:
+					if t.Referrers() != nil {
+						for _, rr := range *t.Referrers() {
+							if s, ok := rr.(*ssa.Store); ok && s.Addr == ssa.Value(t) {
+								addStore(s, t.Field)
+							}
 						}
 					}
+				case *ssa.Store:
+					if t.Addr == ssa.Value(lit) {
+						addStore(t, -1)
+					}
+				}
+			}
+			depth := func(b *ssa.BasicBlock) int {
+				n := 0
+				for d := b.Idom(); d != nil; d = d.Idom() {
+					n++
+				}
+				return n
+			}
+			idx := func(in ssa.Instruction) int {
+				for i, x := range in.Block().Instrs {
+					if x == in {
+						return i
+					}
+				}
+				return -1
+			}
+			sort.SliceStable(wrs, func(i, j int) bool {
+				bi, bj := wrs[i].in.Block(), wrs[j].in.Block()
+				if bi != bj {
+					return depth(bi) < depth(bj)
+				}
+				return idx(wrs[i].in) < idx(wrs[j].in)
+			})
+			for _, w := range wrs {
+				if w.field >= 0 {
+					stored[st.Field(w.field).Name()] = w.val
+					fromRecv[st.Field(w.field).Name()] = false
+					continue
+				}
+				whole := false
+				if u, isU := w.val.(*ssa.UnOp); isU && u.Op == token.MUL && u.X == ssa.Value(fn.Params[0]) {
+					whole = true
+				}
+				for i := 0; i < st.NumFields(); i++ {
+					stored[st.Field(i).Name()] = w.val
+					fromRecv[st.Field(i).Name()] = whole
 				}
 			}
 			for i := 0; i < st.NumFields(); i++ {
@@ -85,8 +152,8 @@ func r20c(c *an.Ctx) map[string]string {
 					}
 					continue
 				}
-				ok := false
-				if u, isU := v.(*ssa.UnOp); isU {
+				ok := fromRecv[name]
+				if u, isU := v.(*ssa.UnOp); isU && !ok {
 					if fa, isFA := u.X.(*ssa.FieldAddr); isFA && fa.Field == i && fa.X == ssa.Value(fn.Params[0]) {
 						ok = true
 					}
@@ -465,4 +532,118 @@ func r20d(c *an.Ctx) {
 		c.Ob("configuration/componentcfg."+p.fn+"|rejects-malformed", fn.Pos(), ok, "malformed input must be rejected with E_BAD_KEY and well-formedness must be established before success %v", why)
 	}
 	_ = fmt.Sprint
+}
+
+// R20e: "templated with exactly the variables supplied" needs the variables of a request to stay with that request.
+// Whatever GetAndProcessComponentConfiguration hands to a function that updates state kept in the Service (the
+// template-set cache, which lives until it is explicitly invalidated) must not be computed from varStack.
+func r20e(c *an.Ctx) {
+	c.Rule("R20e", "GetAndProcessComponentConfiguration: nothing derived from the request's variables is passed to a function that updates state kept by the Service", 1)
+	fn := c.MustFn("apricot/local", "Service.GetAndProcessComponentConfiguration")
+	if fn == nil {
+		return
+	}
+	var vars *ssa.Parameter
+	for _, p := range fn.Params {
+		if m, ok := p.Type().Underlying().(*types.Map); ok && types.Identical(m.Key(), types.Typ[types.String]) {
+			vars = p
+		}
+	}
+	if vars == nil {
+		c.Lost("the variables parameter (map[string]string) of GetAndProcessComponentConfiguration")
+		return
+	}
+	// state reachable from a *Service receiver: fields, and what is looked up in / loaded from them
+	fromRecv := func(v ssa.Value, recv ssa.Value) bool {
+		for i := 0; i < 12 && v != nil; i++ {
+			switch x := v.(type) {
+			case *ssa.Parameter:
+				return ssa.Value(x) == recv
+			case *ssa.FieldAddr:
+				v = x.X
+			case *ssa.UnOp:
+				v = x.X
+			case *ssa.IndexAddr:
+				v = x.X
+			case *ssa.Lookup:
+				v = x.X
+			case *ssa.Extract:
+				v = x.Tuple
+			default:
+				return false
+			}
+		}
+		return false
+	}
+	// functions that update state reachable from their *Service receiver
+	updatesService := func(f *ssa.Function) bool {
+		if f == nil || len(f.Blocks) == 0 || f.Signature.Recv() == nil || len(f.Params) == 0 || !types.Identical(f.Params[0].Type(), fn.Params[0].Type()) {
+			return false
+		}
+		recv := f.Params[0]
+		found := false
+		an.Instrs(f, func(in ssa.Instruction) {
+			switch x := in.(type) {
+			case *ssa.MapUpdate:
+				if fromRecv(x.Map, recv) {
+					found = true
+				}
+			case *ssa.Store:
+				if _, isFA := x.Addr.(*ssa.FieldAddr); isFA && fromRecv(x.Addr, recv) {
+					found = true
+				}
+			}
+		})
+		return found
+	}
+	fromVars := func(v ssa.Value) bool {
+		for _, l := range an.BackSlice(v, an.SliceOpts{}) {
+			if l.Val == ssa.Value(vars) {
+				return true
+			}
+		}
+		return false
+	}
+	// updates made by the function itself (or by helpers expanded into it)
+	c.Subject()
+	var direct []string
+	an.Instrs(fn, func(in ssa.Instruction) {
+		switch x := in.(type) {
+		case *ssa.MapUpdate:
+			if fromRecv(x.Map, fn.Params[0]) && (fromVars(x.Key) || fromVars(x.Value)) {
+				direct = append(direct, c.PosStr(x.Pos()))
+			}
+		case *ssa.Store:
+			if _, isFA := x.Addr.(*ssa.FieldAddr); isFA && fromRecv(x.Addr, fn.Params[0]) && fromVars(x.Val) {
+				direct = append(direct, c.PosStr(x.Pos()))
+			}
+		}
+	})
+	sort.Strings(direct)
+	c.Ob("(*apricot/local.Service).GetAndProcessComponentConfiguration|own-updates|no-request-variables", fn.Pos(), len(direct) == 0,
+		"state kept by the Service is updated at %v with values computed from this request's variables: later requests with other variables are served from it", direct)
+	n := 0
+	an.Instrs(fn, func(in ssa.Instruction) {
+		call, ok := in.(ssa.CallInstruction)
+		if !ok {
+			return
+		}
+		cal := call.Common().StaticCallee()
+		if !updatesService(cal) {
+			return
+		}
+		n++
+		c.Subject()
+		var bad []string
+		for i, a := range call.Common().Args {
+			if fromVars(a) {
+				bad = append(bad, fmt.Sprintf("argument %d", i))
+			}
+		}
+		c.Ob("(*apricot/local.Service).GetAndProcessComponentConfiguration|call "+an.Short(cal.String())+"|no-request-variables", call.Pos(), len(bad) == 0,
+			"%s updates state kept by the Service and receives values computed from this request's variables (%v): what it keeps (e.g. template functions closed over the first request's variables in the cached template set) is then applied to later requests with other variables", an.Short(cal.String()), bad)
+	})
+	if n == 0 {
+		c.Lost("a call from GetAndProcessComponentConfiguration to a Service method that updates cached state (templateSetForBasePath)")
+	}
 }
